@@ -480,6 +480,11 @@ def run(chk):
 					vals[rng.randrange(n)] = None
 				chk.case("total", {"obj": "vector", "values": vals, "name": rng.choice(NAMES_ODD[:9]), "what": f"hostile-{kind}", "limit": rng.choice([None, 2, 4])}, "total-vector")
 		chk.case("total", {"obj": "vector", "values": [rng.choice(pool) for _ in range(10000)], "name": None, "what": f"long-{kind}"}, "total-long")
+	for nm in (5, ("a", 1), 0, 2.5, True, b"n", frozenset({1})):
+		chk.case("total", {"obj": "vector", "values": [1, 2], "name": nm, "what": f"name-{type(nm).__name__}"}, "total-odd-name")
+	for vals, what in (([10 ** 5000, 1], "int-beyond-str-limit"), ([-(10 ** 5000)], "negative-int-beyond-str-limit"), ([1.5, 10 ** 400], "huge-int-in-float"), ([1.5, 10 ** 5000, None], "huge-int-in-float-beyond-str-limit"), ([10 ** 400, 1j], "huge-int-in-complex")):
+		chk.case("total", {"obj": "vector", "values": vals, "name": None, "what": what}, "total-huge-int")
+		chk.case("total", {"obj": "table", "cols": [vals, list(range(len(vals)))], "names": ["a", "b"], "what": what + "-table"}, "total-huge-int")
 	chk.case("total", {"obj": "vector", "values": [], "name": None, "what": "empty"}, "total-empty")
 	chk.case("total", {"obj": "vector", "values": [], "name": "nm", "what": "empty-named"}, "total-empty")
 	chk.case("total", {"obj": "vector", "values": [None, None], "name": None, "what": "all-none"}, "total-empty")
